@@ -494,6 +494,56 @@ func (fg *FnGen) loopWrites(fr *Frame, li *loopInfo) (map[string]bool, bool) {
 	return set, all
 }
 
+// loopLocalOnly: heap variables (cells and struct fields, indexed by reference) that the loop writes only through
+// allocations made inside the loop body (the Alloc itself, or a Store whose address is rooted at such an Alloc).
+// Such writes cannot touch an object that existed before the loop was entered.
+func (fg *FnGen) loopLocalOnly(fr *Frame, li *loopInfo, set map[string]bool) map[string]bool {
+	external := map[string]bool{}
+	inLoopAlloc := func(v ssa.Value) bool {
+		for {
+			switch a := v.(type) {
+			case *ssa.FieldAddr:
+				v = a.X
+				continue
+			case *ssa.IndexAddr:
+				if _, isSlice := a.X.Type().Underlying().(*types.Slice); isSlice {
+					return false
+				}
+				v = a.X
+				continue
+			case *ssa.Alloc:
+				return li.body[a.Block()]
+			}
+			return false
+		}
+	}
+	for b := range li.body {
+		for _, ins := range b.Instrs {
+			switch x := ins.(type) {
+			case *ssa.Alloc:
+				continue
+			case *ssa.Store:
+				if inLoopAlloc(x.Addr) {
+					continue
+				}
+			}
+			tmp := map[string]bool{}
+			dummy := false
+			fg.instrWrites(fr.fn, ins, tmp, &dummy, 0)
+			for n := range tmp {
+				external[n] = true
+			}
+		}
+	}
+	out := map[string]bool{}
+	for n := range set {
+		if !external[n] && (strings.HasPrefix(n, "HP:") || strings.HasPrefix(n, "H:")) && strings.HasPrefix(fg.stateSorts[n], "(Array Int ") {
+			out[n] = true
+		}
+	}
+	return out
+}
+
 func (fg *FnGen) instrWrites(fn *ssa.Function, ins ssa.Instruction, set map[string]bool, all *bool, depth int) {
 	switch x := ins.(type) {
 	case *ssa.Store:
@@ -698,6 +748,18 @@ func (fg *FnGen) enterLoop(fr *Frame, li *loopInfo, st *State) *State {
 		hst = &State{gen: g, over: map[string]*Term{}}
 	} else {
 		hst = fg.havocSet(st, set)
+		// writes rooted at allocations made inside the loop leave every object that existed at loop entry unchanged
+		preClock := fg.currentClock()
+		var lnames []string
+		for n := range fg.loopLocalOnly(fr, li, set) {
+			lnames = append(lnames, n)
+		}
+		sort.Strings(lnames)
+		for _, n := range lnames {
+			srt := fg.stateSorts[n]
+			r := Bound(fg.freshName("lr"), SInt)
+			fg.assume(Forall([]*Term{r}, Implies(Le(r, preClock), Eq(Select(fg.lookup(hst, n, srt), r), Select(fg.lookup(st, n, srt), r)))))
+		}
 	}
 	// phis become fresh constants (done in step for *ssa.Phi at a header); evaluate them first so invariants can refer to them
 	for _, ins := range h.Instrs {
